@@ -289,7 +289,8 @@ func ValidateOpenMsg(m *BGPOpen, expectedAS uint32, myAS uint32, myId netip.Addr
 	for _, p := range m.OptParams {
 		paramCap, y := p.(*OptionParameterCapability)
 		if !y {
-			continue
+			// RFC 4271 Section 6.2: an Optional Parameter that is not recognized
+			return 0, NewMessageError(BGP_ERROR_OPEN_MESSAGE_ERROR, BGP_ERROR_SUB_UNSUPPORTED_OPTIONAL_PARAMETER, nil, "unsupported optional parameter")
 		}
 		for _, c := range paramCap.Capability {
 			if c.Code() == BGP_CAP_FOUR_OCTET_AS_NUMBER {
